@@ -12,7 +12,7 @@ func init() {
 	Register(&Property{
 		ID: "C20",
 		Decides: "(R20.1) every (object, header, body) triple put into a last-value cache slot — the permanent databases' last block map / last suffrage proof, the block writer's and the temp database's copies — has all three components assigned from a non-nil source (never a never-assigned variable or a nil constant), and on the reload paths header and body come from the same decoded frame as the object; " +
-			"(R20.2) both permanent back-ends' constructors reload every slot the merge path maintains (encoder hint, block map, suffrage proof, network policy) and fail if a reload fails; (R20.3) writer and reader sides of each record kind use a compatible frame codec pair.; (R20.k) every leveldb key builder carries each of its parameters in full under its own prefix constant; (R20.j) jobs handed to a worker read only captured variables that the submitter does not assign again (no job works on a later batch/slot than the one it was created for); (R20.c) wherever a pool operation record is deleted, the operation is dropped from the operation cache (or there is no cache) before the function returns",
+			"(R20.2) both permanent back-ends' constructors reload every slot the merge path maintains (encoder hint, block map, suffrage proof, network policy) and fail if a reload fails; (R20.3) writer and reader sides of each record kind use a compatible frame codec pair.; (R20.k) every leveldb key builder carries each of its parameters in full under its own prefix constant; (R20.j) jobs handed to a worker read only captured variables that the submitter does not assign again (no job works on a later batch/slot than the one it was created for); (R20.c) wherever a pool operation record is deleted, the operation is dropped from the operation cache (or there is no cache) before the function returns; (R20.s) a block writer's state cache is not shared across heights (object reads answer from the cache, byte reads and reads after a reopen from the store) — violated today, known finding",
 		NotDecided: "byte equality of what is served before and after reopening for all histories; pool contents; what leveldb/redis persist.",
 		Run:        runC20,
 	})
@@ -94,6 +94,7 @@ func tripleStores(c *Ctx, fn *ssa.Function, lit ssa.Value) map[int]ssa.Value {
 }
 
 func runC20(c *Ctx) {
+	stateCacheOwnershipRule(c, "R20.s")
 	// R20.c: the pool's operation cache holds nothing the store no longer has
 	c.Rule("R20.c", "MustPass")
 	ndel := 0
